@@ -11,6 +11,9 @@ ID = "C07"
 THEOREM_FILE = "Properties/C07.v"
 IMPORTS = "From Annet Require Import Base.Str Model.Pattern Model.PatternX Spec.P_C07 Spec.P_C07X."
 TY = "c07_in * c07_out"
+IMPORTS_T = ("From Annet Require Import Base.Str Model.Pattern Model.PatternX Model.PatternT Model.PatternY "
+             "Spec.P_C07 Spec.P_C07X Spec.P_C07T Spec.P_C07Y.")
+TY_T = "c07t_in * c07t_out"
 META = {
     "text": "Proof: for every plain pattern (literal words, `*`, `*/re/`, trailing `~`) and every row, the word-level "
             "matcher that models compile_row_regexp returns a key exactly when the declarative relation matches_spec "
@@ -30,12 +33,29 @@ META = {
             ".format outputs, exhaustively over small patterns x rows (plain and with regex words), and on every shipped "
             "rule line the extended language covers (through the regexps stored in the really compiled patching/"
             "ordering/deploy rulebooks, the ACL and the implicit compilers), with rows synthesised from the model (every "
-            "enumerated word of every regex word, proved to be in its language) and near-miss mutants.",
+            "enumerated word of every regex word, proved to be in its language) and near-miss mutants. "
+            "Second extension (Model/PatternY.v, conservative over the first: C07Y_conservative): a placeholder glued to a "
+            "literal suffix (`*/(ip|ipv6)/-prefix`) and special last words `w...`, `w~`, `*/a.*/`, `*/a.+/` (`.` crosses "
+            "blanks: binds the rest of the row), `w$`, `*/r$/`: proved for all patterns/rows: matcher = declarative relation "
+            "(C07Y_match_iff, C07Y_match_iff_new), key unique, key length, parser returns well-formed patterns that print "
+            "back to the text, ignore_case (C07Y_ignore_case; C07X_ignore_case for the first extension, both peculiarities "
+            "included); the removal-command half for the new forms is correspondence-tested only "
+            "(C07Y_reverse_statement is not proved; C07Y_reverse_partial covers embedded PatternX patterns). The shipped "
+            "lines it covers are compared with CPython re (direct and negated form, removal template included) on "
+            "synthesised rows and mutants. Rule-TEXT entry points: the model of _parse_raw_rule (strip, %params cut, "
+            "runs of blanks/tabs collapsed) is proved to return the words of the line joined by single blanks "
+            "(C07T_collapse, C07T_row_words, C07T_spacing_irrelevant, C07T_row_normal_form) and the model of the three "
+            "text compilers satisfies the text-level predicate (C07T_holds); a share of the cases goes through "
+            "compile_patching_text / compile_acl_text / compile_ordering_text with irregular spacing and %params, "
+            "comparing matches, keys, removal commands and the ACL/ordering reverse forms.",
     "technique": "Coq induction on tokens/words/characters, Brzozowski derivatives; vm_compute differential check",
-    "note": "Shipped rule lines still outside the extended language (`.`/`.*` that may cross a blank, `$`, a placeholder "
-            "glued to a literal `*/re/-suffix`, the `...`/`name:~` forms, groups spanning two words, `*` inside a word) are "
-            "listed as unmodelled in the evidence and excluded from the claim (fail closed). C07X_match_iff / C07X_holds "
-            "carry the guard quirk_free; C07X_bare_group_refuted and C07X_no_boundary_refuted show it is needed.",
+    "note": "Shipped rule lines still outside both extensions (15 rule texts: `.`/`.*` not at the end of the last "
+            "placeholder or in a literal word, `$` inside an alternative, a glued placeholder before `...`, groups spanning "
+            "two words, `*` inside a word, an alternation not closed in a group, a lookahead) are listed as unmodelled in the "
+            "evidence and excluded from the claim (fail closed). C07X_match_iff / C07X_holds / C07Y_match_iff carry the "
+            "guard quirk_free; C07X_bare_group_refuted and C07X_no_boundary_refuted show it is needed. For the new forms of "
+            "the second extension only the matching half of the predicate is proved of the model (C07Y_holds_partial); the "
+            "text-level theorems assume ASCII text whose blanks are space and \\t..\\r (no separators 28..31).",
 }
 
 FKEY = ["K1", "K2", "K3", "K4", "K5", "K6"]
@@ -176,6 +196,60 @@ def gen_reverse_ext(ctx, accepted):
                 cases.append({"kind": "raw", "rule": p, "prefix": prefix, "ic": False, "fkey": FKEY[:klen],
                               "rows": some_rows, "src": "reverse-ext"})
     return cases
+
+
+# --- rule lines through the rule-TEXT entry points ------------------------------------------
+
+VENDOR_OF_PREFIX = {"no": "cisco", "undo": "huawei", "delete": "juniper", "remove": "routeros", "-": "pc"}
+GAPS = ["  ", "\t", "   ", " \t", "\t\t", "    ", " \t ", " "]
+SFX_P = ["", "", "   %comment=c1", "\t%global", "  %ignore_case", "    %comment=a  %multiline", " \t %force_commit=1"]
+SFX_A = ["", "", "  %cant_delete=1", "\t%prio=5", "   %global", "  %cant_delete=0   %prio=2"]
+SFX_O = ["", "", "   %order_reverse", "\t%global", "  %scope=patch", " \t%order_reverse=1  %global=0"]
+TEXT_HAND = [
+    "no shutdown", "shutdown", "no ip redirects", "ip address * *", "mtu */\\d+/", "no ip proxy-arp",
+    "description ~", "no description ~", "interface * mtu */\\d+/ ~", "undo interface * mtu", "undo undo ab",
+    "delete interfaces * unit */\\d+/", "delete delete", "no no shutdown", "route-map * (?:permit|deny) *",
+    "no route-map * (?:permit|deny) *", "undo (ftp|FTP) *", "vlans? * name ~",
+]
+
+
+def respace(rule: str, rng, lead: bool = True) -> tuple[str, str]:
+    """the rule line with every blank replaced by a run of blanks / tabs; returns (text, spacing class)"""
+    toks = rule.split(" ")
+    gaps = [rng.choice(GAPS) for _ in toks[1:]]
+    if gaps and all(g == " " for g in gaps):
+        gaps[rng.randrange(len(gaps))] = rng.choice(GAPS[:-1])
+    body = toks[0] + "".join(g + t for g, t in zip(gaps, toks[1:]))
+    head = rng.choice(["", "", "  ", "\t"]) if lead else ""
+    tail = rng.choice(["", "", " ", "\t", "   "])
+    cls = "single-token" if not gaps else ("tab" if any("\t" in g for g in gaps) else "blanks")
+    return head + body + tail, cls
+
+
+def gen_text_rules(ctx, shipped_modelled):
+    """(rule text single-spaced, negation word, vendor for the compilers, per-token samples or None, family)"""
+    out = []
+    for prefix in ("no", "undo", "delete"):
+        for t in TEXT_HAND:
+            out.append((t, prefix, VENDOR_OF_PREFIX[prefix], None, "text-hand"))
+    for prefix in ("no", "undo", "delete", "remove", "-"):
+        for p in patterns([prefix, "ab"], 3):
+            if ctx.thorough or hash_small("T" + p + prefix) % (2 if len(p.split()) <= 2 else 5) == 0:
+                out.append((p, prefix, VENDOR_OF_PREFIX[prefix], None, "text-small"))
+    step = 1 if ctx.thorough else 6
+    off = ctx.seed % step
+    seen = set()
+    rows = sorted(shipped_modelled, key=lambda r: (r["row"], r["vendor"]))
+    for r in rows:
+        k = (r["row"], r["prefix"])
+        if k in seen or "%" in r["row"] or r["row"].startswith(("!", "#")):
+            continue
+        seen.add(k)
+        if len(r["row"].split(" ")) >= 2:
+            out.append((r["row"], r["prefix"], r["vendor"], r["smp"], "text-shipped"))
+    ship = [x for x in out if x[4] == "text-shipped"]
+    out = [x for x in out if x[4] != "text-shipped"] + ship[off::step]
+    return out
 
 
 # --- reading Coq values back --------------------------------------------------------------
@@ -352,6 +426,11 @@ def synth_rows(rule: str, rng, extra_first: list[str] = (), samples: list[list[s
             return [w] if w else []
         return []
 
+    def sampled(i, t):
+        # a word that is not matched literally: a regex word, or (second extension) a word for which the
+        # model enumerated sample words other than its own text
+        return is_regex_tok(t) or (samples is not None and bool(samples[i]) and samples[i] != [t])
+
     bases = []
     for _ in range(3):
         ws = []
@@ -360,7 +439,7 @@ def synth_rows(rule: str, rng, extra_first: list[str] = (), samples: list[list[s
                 ws.append(rng.choice(fill))
             elif t == "~":
                 ws.extend(rng.sample(fill, rng.randint(1, 3)))
-            elif is_regex_tok(t):
+            elif sampled(i, t):
                 ws.append(rng.choice(words_of(i, t) or fill))
             else:
                 ws.append(t)
@@ -378,7 +457,7 @@ def synth_rows(rule: str, rng, extra_first: list[str] = (), samples: list[list[s
     n = len(ws)
     # every enumerated word of every regex token in turn, and near misses of it
     for i, t in enumerate(toks):
-        if t in ("*", "~") or not is_regex_tok(t) or i >= n:
+        if t in ("*", "~") or not sampled(i, t) or i >= n:
             continue
         cands = words_of(i, t)
         for k, w in enumerate(cands[:10]):
@@ -448,6 +527,20 @@ def c_out(o) -> str:
     return f"(C07Out {cstr(o['tmpl'])} {c_fmt(o['ffmt'])} {clist(c_rowout(x) for x in o['rows'])})"
 
 
+def c_mrows(rows) -> str:
+    return clist("None" if g is None else f"(Some {clist(cstr(x) for x in g)})" for g in rows)
+
+
+def c_inT(c) -> str:
+    return (f"(C07TIn {cstr(c['raw_p'])} {cstr(c['raw_a'])} {cstr(c['raw_o'])} {cstr(c['prefix'])} {cbool(c['ic'])} "
+            f"{clist(cstr(k) for k in c['fkey'])} {clist(cstr(r) for r in c['rows'])})")
+
+
+def c_outT(o) -> str:
+    return (f"(C07TOut {c_out(o['patch'])} {cstr(o['acl_id'])} {c_mrows(o['acl_d'])} {c_mrows(o['acl_r'])} "
+            f"{c_mrows(o['ord_d'])} {c_mrows(o['ord_r'])})")
+
+
 def parse_bools(txt: str) -> list[bool]:
     return [x == "true" for x in re.findall(r"\b(true|false)\b", txt)]
 
@@ -498,9 +591,20 @@ def run(ctx):
     # which generated rule texts does the extended language cover (with this negation word)?
     e_acc = ["map (fun x => match xrule_pat (fst x) with Some p => lead_ok (reverse_xpat p (snd x)) | None => false end) "
              + clist(f"({cstr(a)}, {cstr(b)})" for a, b in cand[k:k + 500]) for k in range(0, len(cand), 500)]
-    all_out = core.coq_eval(ID, IMPORTS, e_samp + e_plain + e_acc, tag="modelled")
-    if len(all_out) != len(e_samp) + len(e_plain) + len(e_acc):
+    # rule lines for the rule-TEXT entry points: which (rule, negation word) are in the domain wf_C07T?
+    text_pre = gen_text_rules(ctx, [dict(r, smp=None) for r in shipped if not r.get("nonascii")])
+    tcand = sorted({(t[0], t[1]) for t in text_pre})
+    e_twf = ["map (fun x => wf_C07T (C07TIn (fst x) (fst x) (fst x) (snd x) false [] [])) "
+             + clist(f"({cstr(a)}, {cstr(b)})" for a, b in tcand[k:k + 400]) for k in range(0, len(tcand), 400)]
+    all_out = core.coq_eval(ID, IMPORTS_T, e_samp + e_plain + e_acc + e_twf, tag="modelled")
+    if len(all_out) != len(e_samp) + len(e_plain) + len(e_acc) + len(e_twf):
         raise core.CheckFailure("could not read back the language-membership answers from Coq")
+    twf_out = all_out[len(e_samp) + len(e_plain) + len(e_acc):]
+    all_out = all_out[:len(e_samp) + len(e_plain) + len(e_acc)]
+    twf_flags = [b for chunk in twf_out for b in parse_bools(chunk)]
+    if len(twf_flags) != len(tcand):
+        raise core.CheckFailure("could not read back wf_C07T flags from Coq")
+    twf_set = {c for c, b in zip(tcand, twf_flags) if b}
     samp_out = all_out[:len(e_samp)]
     plain_out = all_out[len(e_samp):len(e_samp) + len(e_plain)]
     acc_out = all_out[len(e_samp) + len(e_plain):]
@@ -517,7 +621,15 @@ def run(ctx):
                                 f"{sorted(plain_text - set(samples_of_text))[:3]}")
     modelled_text = set(samples_of_text)
     modelled = [r for r in shipped if r["row"] in modelled_text]
-    unmodelled = [r for r in shipped if r["row"] not in modelled_text]
+    # rule lines outside PatternX: does the second extension (Model/PatternY.v) cover them?
+    texts_y = [t for t in texts if t not in modelled_text]
+    ysamp_out = core.coq_eval(ID, IMPORTS_T, ["map yrule_samples " + clist(cstr(t) for t in texts_y)], tag="modelled_y")
+    ysamp = parse_coq(ysamp_out[0]) if texts_y else []
+    if len(ysamp) != len(texts_y):
+        raise core.CheckFailure("could not read back yrule_samples from Coq")
+    ysamples_of_text = {t: v["some"] for t, v in zip(texts_y, ysamp) if v is not None}
+    modelled_y = [r for r in shipped if r["row"] in ysamples_of_text]
+    unmodelled = [r for r in shipped if r["row"] not in modelled_text and r["row"] not in ysamples_of_text]
     acc_flags = [b for chunk in acc_out for b in parse_bools(chunk)]
     if len(acc_flags) != len(cand):
         raise core.CheckFailure("could not read back acceptance flags from Coq")
@@ -563,10 +675,69 @@ def run(ctx):
     for c in cases:
         c["rows_list"] = materialise_rows(c)
 
+    # ---- shipped rule lines covered only by the second extension (glued placeholders, special last words) ----
+    yrng = ctx.rng("rows-y")
+    ycases = []
+    for r in modelled_y:
+        smp = ysamples_of_text[r["row"]]
+        for is_rev in (False, True):
+            text, tsmp = r["row"], smp
+            if is_rev:
+                pre = r["prefix"] + " "
+                if text.startswith(pre):
+                    text, tsmp = text[len(pre):], smp[1:]
+                else:
+                    text, tsmp = pre + text, [[r["prefix"]]] + smp
+            rows = []
+            for _ in range(3 if ctx.thorough else 2):
+                rows += [x for x in synth_rows(text, yrng, extra_first=[r["prefix"]], samples=tsmp) if x not in rows]
+            if is_rev:
+                rows += [x for x in synth_rows(r["row"], yrng, samples=smp)[:6] if x not in rows]
+            ycases.append({"kind": "book", "file": r["file"], "hw": r["hw"], "idx": r["idx"], "rev": is_rev,
+                           "rule": r["row"], "prefix": r["prefix"], "ic": r["ic"] and not is_rev,
+                           "fkey": FKEY, "rows": rows, "rows_list": rows,
+                           "src": "shipped-y-reverse" if is_rev else "shipped-y"})
+
+    # ---- rule lines with irregular spacing through compile_patching_text / compile_acl_text /
+    # compile_ordering_text (syntax.parse_text, _parse_raw_rule) ----
+    trng = ctx.rng("text")
+    tcases = []
+    t_skipped = 0
+    for rule, prefix, vendor, _, fam in gen_text_rules(ctx, [dict(r, smp=samples_of_text.get(r["row"]))
+                                                            for r in shipped if not r.get("nonascii")]):
+        if (rule, prefix) not in twf_set:
+            t_skipped += 1
+            continue
+        smp = samples_of_text.get(rule) if fam == "text-shipped" else None
+        pre = prefix + " "
+        if rule.startswith(pre):
+            rtext, rsmp = rule[len(pre):], (smp[1:] if smp else None)
+        else:
+            rtext, rsmp = pre + rule, ([[prefix]] + smp if smp else None)
+        nd, nr = (24, 16) if ctx.thorough else (14, 10)
+        rows = synth_rows(rule, trng, extra_first=[prefix], samples=smp)[:nd]
+        rows += [r for r in synth_rows(rtext, trng, extra_first=[prefix], samples=rsmp)[:nr] if r not in rows]
+        variants = 2 if fam == "text-hand" or ctx.thorough else 1
+        for _ in range(variants):
+            body_p, cls = respace(rule, trng)
+            body_a, _ = respace(rule, trng)
+            body_o, _ = respace(rule, trng)
+            sp_, sa_, so_ = trng.choice(SFX_P), trng.choice(SFX_A), trng.choice(SFX_O)
+            tcases.append({"kind": "text", "vendor": vendor, "prefix": prefix, "rule": rule,
+                           "raw_p": body_p.rstrip(" \t") + sp_ if sp_ else body_p,
+                           "raw_a": body_a.rstrip(" \t") + sa_ if sa_ else body_a,
+                           "raw_o": body_o.rstrip(" \t") + so_ if so_ else body_o,
+                           "ic": "%ignore_case" in sp_, "fkey": FKEY, "rows": rows, "src": fam, "spacing": cls})
+
     payload = [dict({k: v for k, v in c.items() if k not in ("rows", "rows_list", "src")}, rows=c["rows_list"])
                for c in cases]
     marks["generate_s"] = round(time.time() - t0, 1)
-    outs = core.run_impl_sharded("c07_runner.py", payload, wrap=lambda cs: {"op": "run", "cases": cs}, timeout=900)
+    tpayload = [{k: v for k, v in c.items() if k not in ("src", "spacing", "rule")} for c in tcases]
+    ypayload = [{k: v for k, v in c.items() if k not in ("rows_list", "src")} for c in ycases]
+    outs_all = core.run_impl_sharded("c07_runner.py", payload + tpayload + ypayload,
+                                     wrap=lambda cs: {"op": "run", "cases": cs}, timeout=900)
+    outs, touts = outs_all[:len(payload)], outs_all[len(payload):len(payload) + len(tpayload)]
+    youts = outs_all[len(payload) + len(tpayload):]
     marks["implementation_s"] = round(time.time() - t0, 1)
 
     # ---- Coq evaluates agree / holds ----
@@ -593,8 +764,33 @@ def run(ctx):
         "holds": "fun c => P_C07X (fst c) (snd c)",
         "wf": "fun c => wf_C07X (fst c)",
     }
-    res = core.run_case_files(ID, TY, IMPORTS, preds, terms, per_file=40,
-                              extra_defs=extra_defs, timeout=1500)
+    # the three batches of case files (main, rule-text entry points, second extension) are evaluated side by side
+    for c, o in zip(tcases, touts):
+        if "exc" in o:
+            raise core.CheckFailure(f"runner could not evaluate text case {public_t(c)}: {o}")
+    tterms = [f"({c_inT(c)}, {c_outT(o)})" for c, o in zip(tcases, touts)]
+    yterms = []
+    for c, o in zip(ycases, youts):
+        if "exc" in o:
+            raise core.CheckFailure(f"runner could not evaluate case {public(c)}: {o}")
+        rule_expr = f"(reverse_row {cstr(c['rule'])} {cstr(c['prefix'])})" if c["rev"] else None
+        yterms.append(f"({c_in(c, rule_expr)}, {c_out(o)})")
+    core.ensure_built(IMPORTS_T)
+    from concurrent.futures import ThreadPoolExecutor as _TPE
+    with _TPE(max_workers=3) as _ex:
+        f_main = _ex.submit(core.run_case_files, ID, TY, IMPORTS, preds, terms, per_file=40,
+                            extra_defs=extra_defs, timeout=1500)
+        f_text = _ex.submit(core.run_case_files, ID, TY_T, IMPORTS_T, {
+            "agree": "fun c => outT_eqb (model_C07T (fst c)) (snd c)",
+            "holds": "fun c => P_C07T (fst c) (snd c)",
+            "wf": "fun c => wf_C07T (fst c)",
+        }, tterms, per_file=25, tag="text", timeout=1500)
+        f_y = _ex.submit(core.run_case_files, ID, TY, IMPORTS_T, {
+            "agree": "fun c => out_eqb (model_C07Y (fst c)) (snd c)",
+            "holds": "fun c => P_C07Y (fst c) (snd c)",
+            "wf": "fun c => wf_C07Y (fst c)",
+        }, yterms, per_file=8, tag="ycases", timeout=1500)
+        res, tres, yres = f_main.result(), f_text.result(), f_y.result()
     marks["coq_cases_s"] = round(time.time() - t0, 1)
     ctx.notes.append(f"cumulative phase times: {marks}")
     if res["wf"]:
@@ -711,8 +907,82 @@ def run(ctx):
                         "case": public(cases[i], rows=cases[i]["rows_list"][:5]), "impl_tmpl": outs[i]["tmpl"]},
                 no_input=True))
 
+    # ---- rule-TEXT entry points: Coq evaluates agree / holds on the compiled rulebooks' regexps ----
+    if tres["wf"]:
+        raise core.CheckFailure(f"generator produced a text case outside the guard wf_C07T: {public_t(tcases[tres['wf'][0]])}")
+    t_bad = sorted(set(tres["holds"]))
+    if t_bad:
+        pick = t_bad[:12]
+        d_out = core.coq_eval(ID, IMPORTS_T, [f"diag_C07T (fst {tterms[i]}) (snd {tterms[i]})" for i in pick], tag="tdiag")
+        names = ["patching-match-or-removal-command", "acl-rule-id-not-single-spaced", "acl-direct-form",
+                 "acl-reverse-form", "ordering-direct-form", "ordering-reverse-form"]
+        seen_sig = set()
+        for i, txt in zip(pick, d_out):
+            flags = parse_bools(txt)
+            bad = [n for n, ok in zip(names, flags) if not ok] or ["unknown"]
+            c, o = tcases[i], touts[i]
+            sig = f"C07/text/{bad[0]}"
+            if sig in seen_sig:
+                continue
+            seen_sig.add(sig)
+            ctx.add_violation(core.Violation(
+                signature=sig,
+                what=f"rule line {c['raw_p']!r} (words {c['rule']!r}, negation word {c['prefix']!r}) compiled through "
+                     f"compile_patching_text / compile_acl_text / compile_ordering_text: {', '.join(bad)} differ(s) from "
+                     f"what the words of the line mean (removal template {o['patch']['tmpl']!r}, regexps {o['patterns']})",
+                replay={"case": public_t(c), "impl_tmpl": o["patch"]["tmpl"], "impl_patterns": o["patterns"],
+                        "failing_parts": bad}))
+    elif tres["agree"] and not ctx.violations:
+        i = sorted(set(tres["agree"]))[0]
+        ctx.add_violation(core.Violation(
+            signature="C07/text/model-impl-disagree",
+            what="Coq model of _parse_raw_rule + compile_row_regexp / _make_reverse and the rulebooks compiled by the "
+                 "real text compilers differ (correspondence broken); P_C07T holds on all outputs explored",
+            replay={"correspondence": "Model.PatternT vs syntax._parse_raw_rule via compile_*_text",
+                    "case": public_t(tcases[i])}, no_input=True))
+
+    # ---- second extension: Coq evaluates agree / holds on the shipped lines it covers ----
+    y_outside = sorted(set(yres["wf"]))          # e.g. the reversed text is outside the language: not judged
+    y_bad = [i for i in sorted(set(yres["holds"])) if i not in y_outside]
+    y_kinds = [i for i, o in enumerate(youts) if o.get("kinds_differ") and i not in y_outside]
+    if y_bad:
+        pick = y_bad[:10]
+        d_out = core.coq_eval(ID, IMPORTS_T, [f"diag_C07Y (fst {yterms[i]}) (snd {yterms[i]})" for i in pick], tag="ydiag")
+        seen_sig = set()
+        for i, txt in zip(pick, d_out):
+            flags = parse_bools(txt)
+            ffmt_ok, model_ok, match_ok = (flags + [False, False, False])[:3]
+            c, o = ycases[i], youts[i]
+            kind = "match-differs" if not match_ok else "removal-command-differs"
+            sig = f"C07/ext2/{kind}" + ("" if not model_ok else "-as-modelled")
+            if (sig, c["rule"]) in seen_sig:
+                continue
+            seen_sig.add((sig, c["rule"]))
+            ctx.add_violation(core.Violation(
+                signature=sig,
+                what=f"rule {o.get('rule_text', c['rule'])!r} (prefix {c['prefix']!r}, ignore_case={c['ic']}): the real regexp "
+                     f"{o['pattern']!r} / template {o['tmpl']!r} do not give what the rule language says",
+                replay={"case": public(c, rows=c["rows_list"][:8]), "impl_tmpl": o["tmpl"], "impl_ffmt": o["ffmt"],
+                        "y": True}))
+    for i in y_kinds[:1]:
+        c, o = ycases[i], youts[i]
+        ctx.add_violation(core.Violation(
+            signature="C07/shipped/rulebook-kinds-compile-differently",
+            what=f"{c['file']}: row {c['rule']!r} is compiled differently by {o['kinds_differ']}",
+            replay={"case": public(c, rows=c["rows_list"][:3]), "kinds_differ": o["kinds_differ"], "y": True}))
+    if not y_bad and not ctx.violations:
+        for i in [j for j in sorted(set(yres["agree"])) if j not in y_outside][:1]:
+            ctx.add_violation(core.Violation(
+                signature="C07/ext2/model-impl-disagree",
+                what="Coq model (Model.PatternY) and the real compile_row_regexp / _make_reverse differ on a shipped rule "
+                     "line of the second extension; P_C07Y holds on all outputs explored",
+                replay={"correspondence": "Model.PatternY vs annet.annlib.rbparser.syntax.compile_row_regexp",
+                        "case": public(ycases[i], rows=ycases[i]["rows_list"][:5]), "y": True}, no_input=True))
+
+    marks["verdicts_s"] = round(time.time() - t0, 1)
+    ctx.notes.append(f"cumulative phase times (end): {marks}")
     # ---- coverage ----
-    evals = sum(len(c["rows_list"]) for c in cases)
+    evals = sum(len(c["rows_list"]) for c in cases) + sum(len(c["rows_list"]) for c in ycases)
     seen, nontrivial = set(), 0
     hist = {"matched": 0, "unmatched": 0, "format_error": 0}
     by_src: dict[str, int] = {}
@@ -746,12 +1016,34 @@ def run(ctx):
         "exhaustive": bool(exh_full),
         "shipped_rule_lines": {
             "distinct_lines": len(shipped),
-            "modelled": len(modelled),
+            "modelled": len(modelled) + len(modelled_y),
+            "modelled_by_PatternX": len(modelled),
+            "modelled_only_by_second_extension": sorted({r["row"] for r in modelled_y}),
+            "second_extension": {
+                "lines": len(modelled_y), "cases": len(ycases),
+                "evaluations": sum(len(c["rows_list"]) for c in ycases),
+                "matched_rows": sum(1 for o in youts for x in o["rows"] if x is not None),
+                "cases_outside_wf_C07Y_not_judged": [ycases[i]["rule"] + (" [reversed]" if ycases[i]["rev"] else "") for i in y_outside],
+                "model_disagreements": len([j for j in set(yres["agree"]) if j not in y_outside]),
+            },
             "unmodelled": len(unmodelled),
             "per_file_distinct": per_file,
             "unmodelled_rows": unm_rows,
             "modelled_only_by_extended_language": sorted({r["row"] for r in modelled if r["row"] not in plain_text}),
             "skipped_removal_command_starts_with_dropped_word": sorted(set(skipped_lead)),
+        },
+        "rule_text_entry_points": {
+            "cases": len(tcases),
+            "evaluations": sum(len(c["rows"]) for c in tcases) * 5,
+            "rule_lines_outside_wf_C07T_skipped": t_skipped,
+            "by_family": {f: sum(1 for c in tcases if c["src"] == f) for f in sorted({c["src"] for c in tcases})},
+            "spacing": {f: sum(1 for c in tcases if c["spacing"] == f) for f in sorted({c["spacing"] for c in tcases})},
+            "with_params_suffix": sum(1 for c in tcases if "%" in c["raw_p"]),
+            "reverse_regexp_matched_rows": sum(1 for o in touts for g in o["acl_r"] if g is not None),
+            "model_disagreements": len(set(tres["agree"])),
+            "note": "one rule line with runs of blanks / tabs / alignment blanks before %params through "
+                    "compile_patching_text, compile_acl_text, compile_ordering_text (syntax.parse_text, _parse_raw_rule); "
+                    "5 regexps + the removal template per case compared with Model.PatternT and judged by P_C07T",
         },
         "regex_source_text_diagnostic": {
             "compared": len(src_items),
@@ -764,10 +1056,17 @@ def run(ctx):
         "rows are wf_row: printable ASCII words separated by single spaces (what the vendor formatters' split/strip produce)",
         "CPython re is trusted to implement the textbook semantics of the supported regex subset "
         "(classes, sets, alternation, greedy * + ?), re.IGNORECASE on ASCII; checked by this correspondence only",
-        "rule rows outside the extended language (parse_xpat = None) are excluded: see shipped_rule_lines.unmodelled_rows",
+        "rule rows outside both extensions (parse_xpat = None and parse_ypat = None) are excluded: see "
+        "shipped_rule_lines.unmodelled_rows; rows covered only by Model/PatternY.v are judged by P_C07Y / model_C07Y",
+        "rule-text cases: ASCII lines whose blanks are space / tab; the ignore_case flag of a patching line is passed to the "
+        "model as an input (the %params values themselves are not modelled, only where they are cut off)",
         "the predicate is evaluated with the extended-language definitions (P_C07X, model_C07X); on rule rows of the plain "
         "language they coincide with P_C07 / model_C07 (theorem C07X_conservative)",
     ]
+
+
+def public_t(c) -> dict:
+    return {k: v for k, v in c.items() if k not in ("src", "spacing")}
 
 
 def public(c, rows=None) -> dict:
@@ -778,12 +1077,24 @@ def public(c, rows=None) -> dict:
 
 def replay(ctx, doc):
     c = dict(doc["replay"]["case"])
+    if c.get("kind") == "text":
+        out = core.run_impl("c07_runner.py", {"op": "run", "cases": [{k: v for k, v in c.items() if k != "rule"}]})[0]
+        if "exc" in out:
+            print("impl:", out)
+            return 1
+        term = f"({c_inT(c)}, {c_outT(out)})"
+        res = core.run_case_files(ID, TY_T, IMPORTS_T, {"holds": "fun c => P_C07T (fst c) (snd c)"}, [term], tag="replay")
+        print("impl:", {"tmpl": out["patch"]["tmpl"], "patterns": out["patterns"]}, "holds:", not res["holds"])
+        return 1 if res["holds"] else 0
     rows = c.pop("rows")
     c.pop("src", None)
     out = core.run_impl("c07_runner.py", {"op": "run", "cases": [dict(c, rows=rows)]})[0]
     cc = dict(c, rows=rows)
     rule_expr = f"(reverse_row {cstr(c['rule'])} {cstr(c['prefix'])})" if c.get("rev") else None
     term = f"({c_in(cc, rule_expr)}, {c_out(out)})"
-    res = core.run_case_files(ID, TY, IMPORTS, {"holds": "fun c => P_C07X (fst c) (snd c)"}, [term], tag="replay")
+    if doc["replay"].get("y"):
+        res = core.run_case_files(ID, TY, IMPORTS_T, {"holds": "fun c => P_C07Y (fst c) (snd c)"}, [term], tag="replay")
+    else:
+        res = core.run_case_files(ID, TY, IMPORTS, {"holds": "fun c => P_C07X (fst c) (snd c)"}, [term], tag="replay")
     print("impl:", {k: out[k] for k in ("tmpl", "ffmt", "rows", "pattern")}, "holds:", not res["holds"])
     return 1 if res["holds"] else 0
